@@ -2,7 +2,7 @@
 import random, json, os
 import common
 
-THEOREMS = ['C19_step', 'C19_exact', 'C19_range', 'C19_seed_guard', 'C19_10000']
+THEOREMS = ['C19_step', 'C19_exact', 'C19_range', 'C19_seed_guard', 'C19_10000', 'C19_executable_rounding_in_standard_model']
 MODULE = 'OpenFecVerif.Props.C19'
 P = 2147483647
 
